@@ -511,7 +511,12 @@ fn run_one(scn: &Scn, g: &Guest, seed: u64) -> ExecResult {
 
 fn gen_text(rng: &mut Rng) -> Vec<u8> {
     let alphabet: [&str; 16] = ["a", "Z", " ", "\n", "\\", "\\n", "\\\\", ":", "\r", "\u{e9}", "\u{3042}", "\u{1f600}", "stdout:", "cmd:stop\n", "\\\n", "n"];
-    let len = rng.below(24) as usize;
+    // mostly short; sometimes long enough that multi-byte characters straddle byte 128 / 1024 of the outgoing line
+    let len = match rng.below(40) {
+        0..=2 => rng.range(100, 300),
+        3 => rng.range(1000, 1200),
+        _ => rng.below(24),
+    } as usize;
     let mut out: Vec<u8> = Vec::new();
     while out.len() < len {
         out.extend_from_slice(rng.pick(&alphabet).as_bytes());
@@ -573,12 +578,20 @@ impl Property for C18N {
                 7 => {
                     if rng.chance(1, 3) {
                         // a long junk line around the reader's buffer size (8192): the next line must still arrive intact
-                        let n = *rng.pick(&[8190usize, 8191, 8192, 8193, 8200, 16384, 3000]);
-                        let mut l = String::from("x:");
-                        while l.len() < n {
-                            l.push(*rng.pick(&['a', 'b', ':', '\\']));
+                        if rng.chance(1, 8) {
+                            // one over-long line whose tail would be a valid command if the line were cut: it is ONE (unknown) line
+                            let n = *rng.pick(&[65535usize, 65536, 65537, 66000, 131072]);
+                            let mut l = "x".repeat(n);
+                            l.push_str(&format!("u8:{:x}:7f", SEQ));
+                            lines.push(l);
+                        } else {
+                            let n = *rng.pick(&[8190usize, 8191, 8192, 8193, 8200, 16384, 3000]);
+                            let mut l = String::from("x:");
+                            while l.len() < n {
+                                l.push(*rng.pick(&['a', 'b', ':', '\\']));
+                            }
+                            lines.push(l);
                         }
-                        lines.push(l);
                     } else {
                         lines.push(rng.pick(&malformed).to_string());
                     }
